@@ -19,13 +19,13 @@ INPUTS = {
     'quick': [('gen/MC_C02tok', 'gen/MC_C02tok.cfg', 6), ('gen/MC_C03', 'gen/MC_C03atoms_q.cfg', 1), ('gen/MC_C07', 'gen/MC_C07cbor_q.cfg', 4), ('gen/MC_C07', 'gen/MC_C07msgpack_q.cfg', 4),
               ('gen/MC_C07', 'gen/MC_C07ubjson_q4.cfg', 8), ('gen/MC_C07', 'gen/MC_C07bson_tok_q.cfg', 8), ('gen/MC_C07', 'gen/MC_C07cbor_rep.cfg', 1), ('gen/MC_C07', 'gen/MC_C07bson_rep.cfg', 2),
               ('gen/MC_C14', 'gen/MC_C14str_q.cfg', 16), ('gen/MC_C12', 'gen/MC_C12slice_q.cfg', 24), ('gen/MC_C12', 'gen/MC_C12filter_q.cfg', 80), ('gen/MC_C13', 'gen/MC_C13fn_q.cfg', 20),
-              ('gen/MC_C11', 'gen/MC_C11atoms_q.cfg', 12), ('gen/MC_C15', 'gen/MC_C15_q.cfg', 10), ('gen/MC_C05enc', 'gen/MC_C05enc_q.cfg', 1)],
+              ('gen/MC_C11', 'gen/MC_C11atoms_q.cfg', 12), ('gen/MC_C15', 'gen/MC_C15_q.cfg', 10), ('gen/MC_C05enc', 'gen/MC_C05enc_q.cfg', 1), ('gen/MC_C05cbor', 'gen/MC_C05cbor.cfg', 1)],
     'thorough': [('gen/MC_C02tok', 'gen/MC_C02tok.cfg', 1), ('gen/MC_C02char', 'gen/MC_C02char_q.cfg', 2), ('gen/MC_C03', 'gen/MC_C03atoms_t.cfg', 1), ('gen/MC_C07', 'gen/MC_C07cbor_q.cfg', 1),
                  ('gen/MC_C07', 'gen/MC_C07cbor_tok_q.cfg', 2), ('gen/MC_C07', 'gen/MC_C07msgpack_q.cfg', 1), ('gen/MC_C07', 'gen/MC_C07msgpack_tok_q.cfg', 2), ('gen/MC_C07', 'gen/MC_C07ubjson_q4.cfg', 1),
                  ('gen/MC_C07', 'gen/MC_C07ubjson_tok_q.cfg', 2), ('gen/MC_C07', 'gen/MC_C07bson_tok_q.cfg', 1), ('gen/MC_C07', 'gen/MC_C07cbor_rep.cfg', 1), ('gen/MC_C07', 'gen/MC_C07msgpack_rep.cfg', 1),
                  ('gen/MC_C07', 'gen/MC_C07ubjson_rep.cfg', 1), ('gen/MC_C07', 'gen/MC_C07bson_rep.cfg', 1), ('gen/MC_C14', 'gen/MC_C14str_q.cfg', 2), ('gen/MC_C12', 'gen/MC_C12slice_q.cfg', 3),
                  ('gen/MC_C12', 'gen/MC_C12filter_q.cfg', 8), ('gen/MC_C12', 'gen/MC_C12seg_q.cfg', 20), ('gen/MC_C13', 'gen/MC_C13fn_q.cfg', 2), ('gen/MC_C13', 'gen/MC_C13wrap_q.cfg', 30),
-                 ('gen/MC_C11', 'gen/MC_C11atoms_q.cfg', 3), ('gen/MC_C11', 'gen/MC_C11pairs_q.cfg', 20), ('gen/MC_C15', 'gen/MC_C15_q.cfg', 2), ('gen/MC_C05enc', 'gen/MC_C05enc_t.cfg', 1)],
+                 ('gen/MC_C11', 'gen/MC_C11atoms_q.cfg', 3), ('gen/MC_C11', 'gen/MC_C11pairs_q.cfg', 20), ('gen/MC_C15', 'gen/MC_C15_q.cfg', 2), ('gen/MC_C05enc', 'gen/MC_C05enc_t.cfg', 1), ('gen/MC_C05cbor', 'gen/MC_C05cbor.cfg', 1)],
 }
 
 
@@ -179,7 +179,9 @@ def run(tier):
     cov['rule'] = ('inputs = the (thinned) case files of the JSON text, binary format, JSON Pointer, JSONPath, JMESPath, JSON Schema and JSON Patch generators; '
                    'expression strings additionally in every truncation up to 24 characters and with characters substituted from a 25-character set; schemas with '
                    'each keyword value replaced by 8 JSON values; every input goes to all entry points of its kind (decoders via bytes/stream/cursor, compilers, '
-                   'evaluators, re-encoders, CSV/TOON/URI parsers for texts); encoder side (MC_C05enc): 50 values (doubles by bit pattern at every magnitude boundary incl. +-DBL_MAX, '
+                   'evaluators, re-encoders, CSV/TOON/URI parsers for texts); CBOR tag family (MC_C05cbor): 3025 tagged items - multi-dimensional arrays (tags 40 / 1040) with extents at the '
+                   '2^32 / 2^62 / 2^63 / 2^64 boundaries, typed arrays 64-87 with lengths around the element sizes, bignums, decimal fractions / bigfloats with boundary exponents and '
+                   'mantissas, the other interpreted tags with every kind of content, string references; encoder side (MC_C05enc): 50 values (doubles by bit pattern at every magnitude boundary incl. +-DBL_MAX, '
                    'subnormals, inf, NaN; integer boundaries; strings; byte strings; big numbers; containers) x option sets (defaults; float_format x precision in full; every other '
                    'json_options field moved alone through its values; pretty-print layouts with small line length limits) through 12 text / binary encoder entry points; '
                    'a case is one input; calls are counted by the harness')
